@@ -233,6 +233,20 @@ func genCfgCase(r *Rng, keys []cfgKey) *cfgCase {
 			}
 		}
 	}
+	// a quarter of the lines also carry tokens that are arguments but no configuration keys: a crop calibration (CropFile= with
+	// c_ parameters), the soil / groundwater id, a file extension - whatever the run does with them, the configuration keys of
+	// the same line keep their values (CropFile is a prefix of the configuration key CropFileFormat, c_ of nothing)
+	if r.Bool(0.25) {
+		c.Unknown = append(c.Unknown, "CropFile="+pickS(r, []string{"PARAM.WW", "PARAM.SM.yml", "PARAM.ZR"}))
+		for _, t := range []string{"c_MAXAMAX=44.5", "c_TSUM_2=300", "c_YIFAK=0.8", "c_KC_1=0.9"} {
+			if r.Bool(0.5) {
+				c.Unknown = append(c.Unknown, t)
+			}
+		}
+	}
+	if r.Bool(0.15) {
+		c.Unknown = append(c.Unknown, pickS(r, []string{"soilId=077", "gwId=G1", "fcode=W9"}))
+	}
 	// tokens that are not key=value at all (no '=' or more than one) are not arguments: they are skipped wherever they stand
 	for i, n := 0, r.Range(0, 2); i < n; i++ {
 		c.Unknown = append(c.Unknown, pickS(r, []string{"verbose", "-x", "note=a=b", "Latitude", "=", "ETpot=3=4"}))
